@@ -16,9 +16,11 @@ pub mod c12;
 pub mod c13;
 pub mod c14;
 pub mod c15;
+pub mod c16;
 pub mod c17;
 pub mod c18;
 pub mod c19;
+pub mod c20;
 
 pub struct Meta {
     pub assumptions: Vec<&'static str>,
@@ -58,9 +60,11 @@ pub fn subs(id: &str) -> Vec<Box<dyn Sub>> {
         "C13" => c13::subs(),
         "C14" => c14::subs(),
         "C15" => c15::subs(),
+        "C16" => c16::subs(),
         "C17" => c17::subs(),
         "C18" => c18::subs(),
         "C19" => c19::subs(),
+        "C20" => c20::subs(),
         _ => Vec::new(),
     }
 }
